@@ -51,6 +51,13 @@ def build_harness_tool(sc, name):
     h = os.path.join(VERIF, "harness")
     gosum = os.path.join(h, "go.sum")
     shutil.copyfile(os.path.join(REPO, "go.sum"), gosum)
+    # the AST dump used on the harness side is the hook's own code (verif_dump.go in /repo), copied per build
+    hook = open(os.path.join(REPO, "verif_dump.go")).read()
+    body = hook[hook.index("func verifPos"):]
+    os.makedirs(os.path.join(h, "astdump"), exist_ok=True)
+    with open(os.path.join(h, "astdump", "dump_generated.go"), "w") as f:
+        f.write("// Code generated from /repo/verif_dump.go by pvlib/common.py; DO NOT EDIT.\n\npackage astdump\n\n"
+                "import (\n\t\"fmt\"\n\t\"io\"\n\t\"strings\"\n\n\t\"github.com/mna/pigeon/ast\"\n)\n\n" + body)
     run(["go", "build", "-tags", "verif", "-o", out, "./cmd/" + name], cwd=h, env=go_env(), timeout=600)
     return out
 
